@@ -87,6 +87,9 @@ _SIZED = [("varchar(10)", "varchar", 10), ("decimal(10,2)", "decimal", [10, 2]),
           ("decimal(0,0)", "decimal", [0, 0]), ("varchar(max)", "varchar", "max"), ("text", "text", None), ("double precision", "doubleprecision", None)]
 _SUFFIX = [("[]", "[]"), ("[][]", "[][]"), (" ARRAY", "[]"), (" unsigned", "unsigned")]
 OTHER_FORMS += [(b + sf, ty + sfe, sz) for b, ty, sz in _SIZED for sf, sfe in _SUFFIX]
+# sizes with a unit word (Oracle / Db2); a suffix after them is not a form the grammar has
+OTHER_FORMS += [("varchar(20 OCTETS)", "varchar", "20 OCTETS"), ("varchar(100 CODEUNITS32)", "varchar", "100 CODEUNITS32"), ("clob(1 M)", "clob", "1 M"), ("blob(2 G)", "blob", "2 G"),
+                ("varchar2(30 BYTE)", "varchar2", "30 BYTE"), ("nchar(4 char)", "nchar", "4 char")]
 OPTS = [("", {}), (" NOT NULL", {"nullable": False}), (" DEFAULT 'x'", {"default": "'x'"}), (" COMMENT 'c c'", {"comment": "'c c'"})]
 
 
@@ -166,7 +169,9 @@ def run(tier, seed):
     cov["model_drift"] = {"behaviours_lexed": len(g_beh), "token_type_or_flag_mismatches": len(bad), "examples": bad[:3]}
     # ---- verdict: through the API --------------------------------------------------------------------------------------------------
     cases = []
-    use = spellings
+    # field names of STRUCT types also delimited (the way SHOW CREATE TABLE prints them): through the API only
+    quoted = [(re.sub(r"\bf([12])\b", lambda m: q[0] + "f" + m.group(1) + q[1], s), t) for s, t in spellings if "STRUCT" in s for q in ("``", "[]")]
+    use = spellings + quoted
     for s, t in use:
         tag = {"angleRT"} if ">" in tokens_of(s)[0] else set()
         for pos in (0, 1, 2):
